@@ -535,8 +535,29 @@ func (f *Frame) loopClauses(lp *Loop, kind string) []*Clause {
 			out = append(out, c)
 		}
 	}
+	// every `for ... range` loop over a slice gets the invariant that its hidden index is at least -1
+	if kind == "invariant" {
+		for _, in := range lp.Header.Instrs {
+			phi, ok := in.(*ssa.Phi)
+			if !ok {
+				break
+			}
+			if phi.Comment == "rangeindex" {
+				if autoRangeClause == nil {
+					e, _ := ParseExpr("rangeindex >= -1")
+					autoRangeClause = &Clause{Kind: "invariant", Label: "auto-rangeindex", Text: "rangeindex >= -1", E: e}
+				}
+				c := *autoRangeClause
+				c.Loop = lp.Ordinal
+				out = append(out, &c)
+				break
+			}
+		}
+	}
 	return out
 }
+
+var autoRangeClause *Clause
 
 func (f *Frame) enterLoop(lp *Loop) {
 	g := f.g
